@@ -1,5 +1,5 @@
 (* C13 - caller owns tree memory (statements; the model of yaep_free_tree is in TreeMem.v) *)
-From YV Require Import Prelude Translate Dag TreeMem.
+From YV Require Import Prelude Translate Dag TreeMem PruneMem.
 
 Theorem C13_acyclic_paths_bounded : forall st, acyclic_b st = true ->
   forall id l, id < length st -> path st id l -> length l <= length st.
@@ -19,3 +19,26 @@ Theorem C13_free_tree : forall st fuel root t s',
   NoDup (namefrees log) /\ (forall nm, In nm (namefrees log) <-> exists n, reach st root n /\ name_of st n = Some nm).
 Proof. exact free_tree_correct. Qed.
 Print Assumptions C13_free_tree.
+
+(* the nodes discarded by minimal cost pruning (find_minimal_translation): whatever the visit log V (repetitions, any
+   order), with R the nodes and RN the names of the pruned result, a node is passed to parse_free iff it is logged and
+   not in the result, a name iff an abstract node carrying it is freed and no node of the result carries it - each at
+   most once *)
+Theorem C13_pruning_frees_nodes : forall name_of R RN V,
+  NoDup (fnodes (psweep name_of R RN V)) /\
+  forall v, In v (fnodes (psweep name_of R RN V)) <-> In v V /\ ~ In v R.
+Proof. exact freed_nodes. Qed.
+Print Assumptions C13_pruning_frees_nodes.
+
+Theorem C13_pruning_frees_names : forall name_of R RN V,
+  NoDup (fnames (psweep name_of R RN V)) /\
+  forall nm, In nm (fnames (psweep name_of R RN V)) <->
+             (exists v, In v V /\ ~ In v R /\ name_of v = Some nm) /\ ~ In nm RN.
+Proof. exact freed_names. Qed.
+Print Assumptions C13_pruning_frees_names.
+
+Theorem C13_pruning_no_leak : forall name_of R RN V blocks, incl blocks V ->
+  forall v, In v blocks ->
+    (In v R /\ ~ In v (fnodes (psweep name_of R RN V))) \/ (~ In v R /\ In v (fnodes (psweep name_of R RN V))).
+Proof. exact every_block_kept_or_freed. Qed.
+Print Assumptions C13_pruning_no_leak.
